@@ -146,9 +146,32 @@ exp("methods", "VCSAPI.push", V, "break", "`if remote` -> `if not remote`",
     "        remote = self.get_remote()\n        if not remote:\n            self('push', remote='origin')")
 exp("methods", "VCSAPI.add", V, "break", "every failing `add` is swallowed (`raise` -> `return`)",
     "                return\n            else:\n                raise", "                return\n            else:\n                return")
-exp("methods", "VCSAPI.add", V, "harmless", "handler restructured (`if not ...: raise`)",
-    "            if \"already tracked!\" in str(ex):\n                # mercurial\n                return\n            else:\n                raise",
-    "            if \"already tracked!\" not in str(ex):\n                raise")
+ADD_TEST = "            if self.name == 'hg' and b\"already tracked!\" in (ex.stderr or b\"\"):"
+ADD_HANDLER = ADD_TEST + "\n                # mercurial\n                return\n            else:\n                raise"
+exp("methods", "VCSAPI.add", V, "harmless", "handler restructured (`if not (...): raise`)",
+    ADD_HANDLER,
+    "            if not (self.name == 'hg' and b\"already tracked!\" in (ex.stderr or b\"\")):\n                raise")
+exp("methods", "VCSAPI.add", V, "break", "back to `\"already tracked!\" in str(ex)` (the argv / path text decides again, as before 58b6007)",
+    ADD_TEST, "            if \"already tracked!\" in str(ex):")
+exp("methods", "VCSAPI.add", V, "break", "hg test dropped (git's stderr, which quotes the path, decides again; 46d38a1)",
+    ADD_TEST, "            if b\"already tracked!\" in (ex.stderr or b\"\"):")
+exp("methods", "VCSAPI.add", V, "break", "`and` -> `or`",
+    ADD_TEST, "            if self.name == 'hg' or b\"already tracked!\" in (ex.stderr or b\"\"):")
+exp("methods", "VCSAPI.add", V, "break", "`or b\"\"` dropped (`in None` would raise TypeError)",
+    ADD_TEST, "            if self.name == 'hg' and b\"already tracked!\" in ex.stderr:")
+exp("methods", "VCSAPI.add", V, "break", "test negated (`not in`): every ordinary hg failure is swallowed",
+    ADD_TEST, "            if self.name == 'hg' and b\"already tracked!\" not in (ex.stderr or b\"\"):")
+exp("methods", "VCSAPI.add", V, "break", "another text is looked for (`tracked`)",
+    ADD_TEST, "            if self.name == 'hg' and b\"tracked\" in (ex.stderr or b\"\"):")
+exp("methods", "VCSAPI.add", V, "break", "the handler catches OSError instead of CalledProcessError",
+    "        except sp.CalledProcessError as ex:\n" + ADD_TEST, "        except OSError as ex:\n" + ADD_TEST)
+exp("methods", "VCSAPI.add", V, "harmless", "stderr through a local, conjuncts nested",
+    ADD_HANDLER,
+    "            err = ex.stderr or b\"\"\n            if self.name == 'hg':\n                if b\"already tracked!\" in err:\n                    return\n            raise")
+exp("methods", "VCSAPI.add", V, "harmless", "explicit `return None`, comment, handler variable renamed, operands of == exchanged",
+    "        except sp.CalledProcessError as ex:\n" + ADD_HANDLER,
+    "        except sp.CalledProcessError as err:\n            # hg: adding a tracked file is no error\n"
+    "            if 'hg' == self.name and b\"already tracked!\" in (err.stderr or b\"\"):\n                return None\n            else:\n                raise")
 exp("methods", "VCSAPI.commit", V, "break", "the hg branch runs `add_path` instead of `commit`",
     "                self('commit', env=env, path=tmp_file.name)", "                self('add_path', env=env, path=message)")
 exp("methods", "VCSAPI.get_remote", V, "break", "`except Exception` -> `except OSError` (a failing probe now propagates)",
